@@ -6,6 +6,6 @@ From Coq Require Import ZArith.
 From GS Require Import Fsm FsmTable FsmRunners.
 Extraction Language OCaml.
 Extraction "m_fsm.ml"
-  fsm_cfg st_code op_result walk_okb is_running result_okb classify_stream expected_stream
+  fsm_cfg st_code op_result walk_okb is_running result_okb classify_stream classify_slow expected_stream
   composite_accept http_accept cluster_accept verdict first_undocumented first_bad_step fix_sub
   Z.of_N. (* Z.of_N only so that the shared ocaml/util.ml (which mentions type z) links *)
